@@ -210,3 +210,87 @@ CONTRACTS.append(Contract(
     descr="every secret; bcrypt-package backend loaded by the stub (class bases rebound as set_backend does)",
 ))
 MUTANTS.append(("bcrypt lazy stub re-enters the most-derived _calc_checksum", B, "        return super(bcrypt, self)._calc_checksum(secret)", "        return self._calc_checksum(secret)", "refute", "_NoBackend"))
+
+
+# ---- set_backend on a class that does not own the backend state (bcrypt_sha256 -> bcrypt), and 'any' / 'default' --------------
+def _fwd_setup(it, args):
+    _setup(it, args)
+    cls = args["cls"]
+    seen = []
+
+    def owner_set_backend(i, a, k):
+        seen.append((i.resolve(a[0]) if a else k.get("name"), k.get("dryrun", a[1] if len(a) > 1 else False)))
+        return SStr(z3.String("owner.set_backend(...)"), "str")
+
+    owner = SObj("owner class", is_class=True, fields={"set_backend": SStub(owner_set_backend, "owner.set_backend")})
+    cls.fields["_get_backend_owner"] = SStub(lambda i, a, k: owner, "_get_backend_owner")
+    it.run.ghost["forwarded"] = seen
+    return {"loader_ok": SBool(z3.Bool("loader_ok")), "active0": it.run.ghost["active0"]}
+
+
+def _fwd_post(it, env):
+    seen = it.run.ghost["forwarded"]
+    if len(seen) != 1:
+        return False
+    name, dry = seen[0]
+    return z3.And(it.to_zbool(it.truth(it.cmp_vals("==", name, env.lookup("name")))), it.to_zbool(it.truth(dry)) == it.to_zbool(it.truth(env.lookup("dryrun"))),
+                  it.to_z3(env.lookup("result")) == z3.String("owner.set_backend(...)"), it.to_zbool(_active_unchanged(it, env)), _restored(it, env))
+
+
+CONTRACTS.append(Contract(
+    "BackendMixin.set_backend[forwarded to the owning class]", f"{H}::BackendMixin.set_backend",
+    params={"cls": Obj(cls=(H, "BackendMixin"), is_class=True), "name": Union(Const("os_crypt"), Const("builtin")), "dryrun": Bool()},
+    setup=_fwd_setup, globals=G,
+    requires=["active0 != name"],
+    ensures=[("the owner is asked exactly once, for the same backend and with the SAME dry-run flag; this class's own state is untouched", _fwd_post)],
+    descr="a derived hasher (bcrypt_sha256, bcrypt.using(...)) probing or switching the shared backend",
+))
+
+
+def _any_setup(it, args):
+    cls = args["cls"]
+    active = Union(NoneT(), Const("os_crypt"), Const("builtin")).make(it, "active_backend")
+    cls.fields.update({"__backend": active, "_BackendMixin__backend": active, "backends": ("os_crypt", "builtin"), "_pending_backend": None, "_pending_dry_run": False, "name": "handler", "_no_backend_suggestion": None})
+    ok = {"os_crypt": z3.Bool("ok[os_crypt]"), "builtin": z3.Bool("ok[builtin]")}
+    asked = []
+
+    def get_loader(i, a, k):
+        nm = i.resolve(a[0])
+
+        def loader(i2, a2, k2):
+            asked.append((nm, k2.get("dryrun")))
+            return SBool(ok[nm])
+
+        return SStub(loader, f"loader[{nm}]")
+
+    cls.fields["_get_backend_loader"] = SStub(get_loader, "_get_backend_loader")
+    it.run.ghost.update({"active0": active, "asked": asked, "pending0": None, "dry0": False})
+    return {"ok_os": SBool(ok["os_crypt"]), "ok_builtin": SBool(ok["builtin"]), "active0": active}
+
+
+def _any_post(it, env):
+    g = it.run.ghost
+    dry = it.to_zbool(it.truth(env.lookup("dryrun")))
+    same_flag = z3.And(*[it.to_zbool(it.truth(d)) == dry for _, d in g["asked"]]) if g["asked"] else z3.BoolVal(True)
+    cls = env.lookup("cls")
+    return z3.And(same_flag, z3.Implies(z3.Not(dry), it.to_zbool(it.truth(it.cmp_vals("==", cls.fields["__backend"], env.lookup("result"))))), z3.Implies(dry, it.to_zbool(_active_unchanged(it, env))))
+
+
+for _nm in ("any", "default"):
+    CONTRACTS.append(Contract(
+        f"BackendMixin.set_backend[{_nm}]", f"{H}::BackendMixin.set_backend",
+        params={"cls": Obj(cls=(H, "BackendMixin"), is_class=True), "name": Const(_nm), "dryrun": Bool()},
+        setup=_any_setup, globals=G, max_depth=6,
+        raises={"MissingBackendError": "not ok_os and not ok_builtin"},
+        ensures=[
+            ("the first available backend in declaration order is chosen (an already active one is kept for 'any')",
+             "result == (active0 if (name == 'any' and active0 is not None) else ('os_crypt' if (ok_os or active0 == 'os_crypt') else 'builtin'))"),
+            ("every loader consulted sees the caller's dry-run flag; a non-dry call leaves the result active, a dry run changes nothing", _any_post),
+        ],
+        descr="two declared backends, each available or not; any previously active backend",
+    ))
+
+MUTANTS += [
+    ("set_backend: forwarding to the owner drops the dry-run flag", H, "            return owner.set_backend(name, dryrun=dryrun)", "            return owner.set_backend(name)", "refute", "forwarded"),
+    ("set_backend('any'): probing loop drops the dry-run flag", H, "                    return cls.set_backend(name, dryrun=dryrun)", "                    return cls.set_backend(name)", "refute", r"set_backend\[(any|default)"),
+]
